@@ -11,7 +11,7 @@ from harness.models import jsonmodel, jsonmodel2
 SHARED_TO_DAO_STATE = ToDAOState()      # one conversion state for every heap this process converts (objects die in between)
 
 GEN = None
-SCALARS = {"VA": ["name", "kind", "when", "nums", "weight", "k", "a", "b", "w"], "VB": ["name", "kind", "when", "nums", "weight", "k", "a", "b", "w", "extra"],
+SCALARS = {"VA": ["name", "kind", "when", "nums", "weight", "k", "a", "b", "w", "label"], "VB": ["name", "kind", "when", "nums", "weight", "k", "a", "b", "w", "label", "extra"],
            "VC": ["tag", "tag2", "j1", "j2", "cb"], "VM": ["label"], "VN": ["label", "extra"]}
 SINGLE = {"VA": ["one", "other"], "VB": ["one", "other"], "VC": ["back", "m"], "VM": ["ref"], "VN": ["ref"]}
 MANY = {"VA": ["many"], "VB": ["many"], "VC": ["peers"], "VM": [], "VN": []}
@@ -24,7 +24,7 @@ def build(case):
         if c in ("A", "B"):
             kw = dict(name=f"o{i}", kind=Kind.Y if i % 2 else Kind.X, when=datetime(2020, 1, i, 12, 30) if i != 2 else None,
                       nums=[i, i + 1] if i != 3 else [], weight=i * 0.5 if i != 1 else None, k=VK(i) if i != 2 else None,
-                      a=i, b=-i, w=i if i != 3 else None)
+                      a=i, b=-i, w=i if i != 3 else None, label=('C1', 'C', '')[i % 3])
             objs[i] = VB(extra=i * 10, **kw) if c == "B" else VA(**kw)
         elif c == "C":
             objs[i] = VC(tag=i, tag2=7 * i, cb=(Fa.act, Fb.act, plain_function)[i % 3], j1=(jsonmodel.A(i, [i, "x"]) if i == 2 else jsonmodel.B(i, [i, "x"])) if i != 1 else None, j2=jsonmodel2.A(i, None))
